@@ -110,3 +110,39 @@ package keeper
 //@   ensures only_store: err == nil ==> world(ctx) == withKV(old(world(ctx)), k.storeService, store(ctx))
 //@   ensures write_once: err == nil ==> get(S0, hostv2.PacketAcknowledgementKey(pkt.DestinationClient, pkt.Sequence)) == ""
 //@   ensures frame: err == nil ==> store(ctx) == del(set(S0, hostv2.PacketAcknowledgementKey(pkt.DestinationClient, pkt.Sequence), types.CommitAcknowledgement(ack)), asyncKey)
+
+// ---- message server (IBC v2)
+
+//@ contract (*Keeper).Timeout
+//@   let pk = timeout.Packet
+//@   let cfg = k.clientV2Keeper.GetConfig(goCtx, pk.SourceClient)
+//@   let allowed = cfg.IsAllowedRelayer(bytes(bech32dec(timeout.Signer)))
+//@   let S0 = kv(goCtx, k.storeService)
+//@   let ckey = hostv2.PacketCommitmentKey(pk.SourceClient, pk.Sequence)
+//@   let n0 = calls("v2OnTimeoutPacket")
+//@   requires routerInv(k.Router)
+//@   modifies world(goCtx), calls v2OnTimeoutPacket
+//@   invariant #1 count: calls("v2OnTimeoutPacket") == n0 + rangeindex + 1 && 0 - 1 <= rangeindex && rangeindex < len(pk.Payloads)
+//@   invariant #1 committed: get(S0, ckey) != "" && get(S0, ckey) == types.CommitPacket(pk) && allowed
+//@   ensures relayer_allowed: err == nil ==> allowed
+//@   ensures not_allowed_unchanged: !allowed ==> err != nil && world(goCtx) == old(world(goCtx)) && calls("v2OnTimeoutPacket") == n0
+//@   ensures only_committed: calls("v2OnTimeoutPacket") > n0 ==> get(S0, ckey) != "" && get(S0, ckey) == types.CommitPacket(pk)
+//@   ensures noop_pure: err == nil && result.Result == types.NOOP ==> world(goCtx) == old(world(goCtx)) && calls("v2OnTimeoutPacket") == n0 && get(S0, ckey) == ""
+//@   ensures one_per_payload: err == nil && result.Result == types.SUCCESS ==> calls("v2OnTimeoutPacket") == n0 + len(pk.Payloads)
+
+//@ contract (*Keeper).Acknowledgement
+//@   let pk = msg.Packet
+//@   let cfg = k.clientV2Keeper.GetConfig(goCtx, pk.SourceClient)
+//@   let allowed = cfg.IsAllowedRelayer(bytes(bech32dec(msg.Signer)))
+//@   let S0 = kv(goCtx, k.storeService)
+//@   let ckey = hostv2.PacketCommitmentKey(pk.SourceClient, pk.Sequence)
+//@   let n0 = calls("v2OnAcknowledgementPacket")
+//@   requires routerInv(k.Router)
+//@   modifies world(goCtx), calls v2OnAcknowledgementPacket
+//@   invariant #1 count: calls("v2OnAcknowledgementPacket") == n0 + rangeindex + 1 && 0 - 1 <= rangeindex && rangeindex < len(pk.Payloads)
+//@   invariant #1 committed: get(S0, ckey) != "" && get(S0, ckey) == types.CommitPacket(pk) && allowed
+//@   ensures relayer_allowed: err == nil ==> allowed
+//@   ensures not_allowed_unchanged: !allowed ==> err != nil && world(goCtx) == old(world(goCtx)) && calls("v2OnAcknowledgementPacket") == n0
+//@   ensures only_committed: calls("v2OnAcknowledgementPacket") > n0 ==> get(S0, ckey) != "" && get(S0, ckey) == types.CommitPacket(pk)
+//@   ensures noop_pure: err == nil && result.Result == types.NOOP ==> world(goCtx) == old(world(goCtx)) && calls("v2OnAcknowledgementPacket") == n0 && get(S0, ckey) == ""
+//@   ensures one_per_payload: err == nil && result.Result == types.SUCCESS ==> calls("v2OnAcknowledgementPacket") == n0 + len(pk.Payloads)
